@@ -177,6 +177,23 @@ def _exit_paths(fa, cap=20000):
                 return copy.deepcopy(acc[n.id])
             return n
 
+    # locals that may be changed in place (a method called on them, an item stored, handed to a call): what they hold at
+    # a later test is not what they were assigned
+    mutated = set()
+    for x in A.walk_body(fa.node):
+        if isinstance(x, ast.Call):
+            if isinstance(x.func, ast.Attribute) and isinstance(x.func.value, ast.Name):
+                mutated.add(x.func.value.id)
+            for a_ in list(x.args) + [k.value for k in x.keywords]:
+                if isinstance(a_, ast.Name) and not (isinstance(x.func, ast.Name) and x.func.id in ("len", "bool", "sorted", "list", "tuple", "set", "frozenset", "any", "all", "sum", "min", "max", "isinstance")):
+                    mutated.add(a_.id)
+                if isinstance(a_, ast.Starred) and isinstance(a_.value, ast.Name):
+                    mutated.add(a_.value.id)
+        if isinstance(x, (ast.Subscript, ast.Attribute)) and isinstance(x.ctx, (ast.Store, ast.Del)) and isinstance(x.value, ast.Name):
+            mutated.add(x.value.id)
+        if isinstance(x, ast.AugAssign) and isinstance(x.target, ast.Name):
+            mutated.add(x.target.id)
+
     def effectful(nd):
         a = nd.ast
         if a is None or nd.kind not in ("stmt", "with", "for"):
@@ -218,6 +235,12 @@ def _exit_paths(fa, cap=20000):
             val, dnode, didx = env[nm]
             if isinstance(val, ast.Constant):
                 subs[nm] = val
+            elif _is_empty_container(val) and nm not in mutated:
+                subs[nm] = val  # an empty collection that nothing ever fills
+            elif isinstance(val, (ast.ListComp, ast.SetComp, ast.DictComp)) and nm not in mutated:
+                # the collection computed by that assignment (a value, read symbolically: the same
+                # assignment always expands to the same text, as FA.expand does for a single definition)
+                subs[nm] = fa.expand(val, dnode)
             elif not any(isinstance(x, (ast.Call, ast.Lambda, ast.ListComp, ast.SetComp, ast.DictComp, ast.GeneratorExp, ast.Await, ast.NamedExpr)) for x in ast.walk(val)) \
                     and not any(effectful(cfg.node(i)) for i in path[didx + 1:]):
                 subs[nm] = fa.expand(val, dnode)
@@ -232,6 +255,32 @@ def _exit_paths(fa, cap=20000):
                 truth = same if isinstance(t2.ops[0], (ast.Is, ast.Eq)) else not same
                 return [] if truth == positive else None
         return [fa._literal(t2, node_id, positive)]
+
+    def alts(t, node_id, positive, env, path):
+        """The ways test `t` can come out with the given polarity, each a list of literals.  A conjunction taken true is
+        one way; a disjunction taken true (a conjunction taken false) is decided by the first operand that settles it,
+        the earlier ones having come out the other way (short circuit) - one way per operand."""
+        if isinstance(t, ast.UnaryOp) and isinstance(t.op, ast.Not):
+            return alts(t.operand, node_id, not positive, env, path)
+        if isinstance(t, ast.BoolOp):
+            if (isinstance(t.op, ast.And) and positive) or (isinstance(t.op, ast.Or) and not positive):
+                res = [[]]
+                for v in t.values:
+                    va = alts(v, node_id, positive, env, path)
+                    res = [a + b for a in res for b in va]
+                return res
+            res, prefix = [], [[]]
+            for v in t.values:
+                res += [a + b for a in prefix for b in alts(v, node_id, positive, env, path)]
+                prefix = [a + b for a in prefix for b in alts(v, node_id, not positive, env, path)]
+            return res
+        if isinstance(t, ast.Name) and t.id in env:
+            val, dnode, didx = env[t.id]
+            if isinstance(val, (ast.BoolOp, ast.UnaryOp)) and not any(isinstance(x, ast.Call) for x in ast.walk(val)) \
+                    and not any(effectful(cfg.node(i)) for i in path[didx + 1:]):
+                return alts(val, dnode, positive, {k: v for k, v in env.items() if v[2] < didx}, path[:didx])
+        r = atoms(t, node_id, positive, env, path)
+        return [] if r is None else [r]
 
     def dfs(n, path, lits, env, twice):
         if count[0] > cap:
@@ -264,22 +313,28 @@ def _exit_paths(fa, cap=20000):
                 d_head = dn.kind == "for" or (dn.kind == "test" and isinstance(fa.pm.get(dn.ast), ast.While) and fa.pm.get(dn.ast).test is dn.ast)
                 if not d_head or d in twice:
                     continue
-            add = []
+            ways = [[]]
             if nd.kind == "test" and l in ("T", "F") and not (is_loop_head and nd.kind == "test") and id(nd.ast) not in summarised:
-                add = atoms(nd.ast, n, l == "T", env, path)
-                if add is None:
+                ways = alts(nd.ast, n, l == "T", env, path)
+            for add in ways:
+                new = dict(lits)
+                if any(new.setdefault(a[0], a[1]) != a[1] for a in add):
                     continue
-            if any(lits.get(a[0], a[1]) != a[1] for a in add):
-                continue
-            new = dict(lits)
-            for a in add:
-                new[a[0]] = a[1]
-            path.append(d)
-            dfs(d, path, new, env, twice | {d} if revisit else twice)
-            path.pop()
+                path.append(d)
+                dfs(d, path, new, env, twice | {d} if revisit else twice)
+                path.pop()
 
     dfs(cfg.entry, [cfg.entry], {}, {}, frozenset())
     return None if count[0] > cap else out
+
+
+def _is_empty_container(e):
+    """`[]`, `()`, `{}`, `list()`, `set()`, `tuple()`, `dict()`, `frozenset()`."""
+    if isinstance(e, (ast.List, ast.Tuple, ast.Set)) and not e.elts:
+        return True
+    if isinstance(e, ast.Dict) and not e.keys:
+        return True
+    return isinstance(e, ast.Call) and isinstance(e.func, ast.Name) and e.func.id in ("list", "set", "tuple", "dict", "frozenset") and not e.args and not e.keywords
 
 
 def _parse_lit(text):
@@ -423,8 +478,10 @@ def _visit_unit(ck):
 
 
 def _module_expand(mod, expr, depth=8):
-    """`expr` with the module-level names that are bound once, at module level, replaced by their values (a module
-    constant built through named temporaries reads like the one-expression form)."""
+    """`expr` with the module-level names that are bound once, at module level, replaced by their values, and calls
+    `f()` of argument-less module-level functions that only compute a value (assignments to locals bound once, logging,
+    one final return) replaced by the value they return - so that a module constant built through named temporaries or
+    through such helper functions reads like the one-expression form."""
     import copy
     counts = {}
     for st in mod.tree.body:
@@ -432,6 +489,32 @@ def _module_expand(mod, expr, depth=8):
             for x in ast.walk(t):
                 if isinstance(x, ast.Name):
                     counts[x.id] = counts.get(x.id, 0) + 1
+
+    def returned_value(fn):
+        """the expression a straight-line function returns, its local temporaries substituted; None if it does more."""
+        body = [st for st in fn.body if not (isinstance(st, ast.Expr) and isinstance(st.value, ast.Constant))]
+        a_ = fn.args
+        if a_.args or a_.posonlyargs or a_.kwonlyargs or a_.vararg or a_.kwarg or not body or not isinstance(body[-1], ast.Return) or body[-1].value is None:
+            return None
+        env = {}
+        for st in body[:-1]:
+            if isinstance(st, ast.Expr) and isinstance(st.value, ast.Call) and (A.dotted(st.value.func) or "").split(".")[0] in ("log", "logging", "logger"):
+                continue
+            tg = st.targets if isinstance(st, ast.Assign) else [st.target] if isinstance(st, ast.AnnAssign) and st.value is not None else None
+            if tg is None or len(tg) != 1 or not isinstance(tg[0], ast.Name) or tg[0].id in env:
+                return None
+            env[tg[0].id] = st.value
+
+        class L(ast.NodeTransformer):
+            def __init__(self, d):
+                self.d = d
+
+            def visit_Name(self, n):
+                if isinstance(n.ctx, ast.Load) and n.id in env and self.d > 0:
+                    return L(self.d - 1).visit(copy.deepcopy(env[n.id]))
+                return n
+
+        return L(8).visit(copy.deepcopy(body[-1].value))
 
     class T(ast.NodeTransformer):
         def __init__(self, d):
@@ -441,6 +524,13 @@ def _module_expand(mod, expr, depth=8):
             if isinstance(n.ctx, ast.Load) and counts.get(n.id) == 1 and n.id in mod.assigns and self.d > 0:
                 return T(self.d - 1).visit(copy.deepcopy(mod.assigns[n.id]))
             return n
+
+        def visit_Call(self, n):
+            if isinstance(n.func, ast.Name) and n.func.id in mod.functions and not n.args and not n.keywords and self.d > 0 and n.func.id not in counts:
+                v = returned_value(mod.functions[n.func.id].node)
+                if v is not None:
+                    return T(self.d - 1).visit(v)
+            return self.generic_visit(n)
 
     return T(depth).visit(copy.deepcopy(expr))
 
@@ -479,6 +569,18 @@ def _digest_fed_and_returned(fa, pred):
                         if r.value is not None and fa.nodes(r) and id(dg) in _flow(fa, r.value):
                             return True
     return False
+
+
+def fail_closed(ck):
+    """A rule group that could not run (vanished anchor, idiom not understood) must not pass silently behind the
+    property's recorded known findings: unless some NEW violation is being reported, the run is an analysis error."""
+    from ..report import split_known
+    if ck.analysis_errors and not split_known(ck)[1]:
+        # the entry point fails closed only when no obligation stands violated, and the recorded findings count as
+        # such: take them out of this (broken) run, so that it ends as ANALYSIS-ERROR instead of exit 0
+        for o in ck.obs:
+            if o.verdict == "violation":
+                o.verdict = "note"
 
 
 # --------------------------------------------------------------------------------- C01.R1
@@ -730,6 +832,40 @@ def check_rule_kinds_contribute(ck, R):
 
 
 # --------------------------------------------------------------------------------- C01.R3
+def _digest_feed(fa):
+    """Where the per-rule pieces enter the version digest, whatever the spelling: (loop) a `for` whose body calls
+    `<hasher>.update(piece)`, or (join) `<hasher>.update(sep.join(<pieces>))` / `hashlib.sha256(sep.join(<pieces>))` where
+    <pieces> is a comprehension or a list filled by one filtering loop.  Returns {kind, site (loop / join call), stmt, iter,
+    iter_at, var, piece, spec?, separated?}, or None when there is not exactly one such place."""
+    found = []
+    for n in fa.cfg.nodes:
+        if n.kind == "for" and n.id in fa.cfg.reachable_nodes() and isinstance(n.ast.target, ast.Name):
+            ups = [c for c in A.calls_in(n.ast) if A.call_attr(c) == "update" and isinstance(A.call_recv(c), ast.Name) and c.args]
+            if ups and not any(_joined(fa, c.args[0], fa.nodes(c)[0]) for c in ups if fa.nodes(c)):
+                found.append({"kind": "loop", "site": n.ast, "stmt": ups[0], "iter": n.ast.iter, "iter_at": n.id, "var": n.ast.target.id, "piece": ups[0].args[0]})
+    for c in fa.calls():
+        if not (c.args and fa.nodes(c) and (A.call_dotted(c) in ("hashlib.sha256", "sha256") or (A.call_attr(c) == "update" and isinstance(A.call_recv(c), ast.Name)))):
+            continue
+        j = _joined(fa, c.args[0], fa.nodes(c)[0])
+        if j is not None:
+            (jc, spec) = j
+            found.append({"kind": "join", "site": jc, "stmt": c, "iter": spec["iter"], "iter_at": spec["iter_at"], "var": spec["var"], "piece": spec["elt"], "spec": spec,
+                          "separated": not (isinstance(A.call_recv(jc), ast.Constant) and A.call_recv(jc).value in (b"", ""))})
+    return found[0] if len(found) == 1 else None
+
+
+def _joined(fa, expr, at):
+    """(join call, collection spec) when `expr` is, through temporaries and .encode(), `<sep>.join(<a collection built from one iteration>)`."""
+    for x in _flow(fa, expr, at).values():
+        if isinstance(x, ast.Call) and A.call_attr(x) == "join" and len(x.args) == 1 and A.call_recv(x) is not None:
+            st = fa.stmt_of(x)
+            nodes = fa.nodes(st) if st is not None else []
+            spec = _collection_spec(fa, x.args[0], nodes[0] if nodes else at)
+            if spec is not None:
+                return (x, spec)
+    return None
+
+
 def _copied_params(fa, expr, at, _seen=None):
     """Parameters whose value can reach `expr` by plain copying (names, conditional expressions,
     `or` / `and`), i.e. without passing through a call."""
@@ -763,57 +899,77 @@ def check_digest_consumes_rules(ck, R):
     ck.need(isinstance(res, ast.Name), "_recompute_version: result= is not a local set")
     loops = [n for n in fa.cfg.nodes if n.kind == "for" and any(A.call_attr(c) == "compute_hash" for c in A.calls_in(n.ast))]
     lp = fa.one(loops, "loop over hash rules")
-    it = lp.ast.iter
-    d = fa.df.deps(it, lp.id)
-    defs_it = fa.df.chains(it, lp.id)
-    ok = ("call:sorted" in d or "call:sort" in d) and ("local:" + res.id in d or any(A.norm(x.value) == "set()" for i in [lp.id] for x in fa.df.reaching(i, res.id)))
-    # the sorted(...) argument is exactly the result set
-    src = it
-    if isinstance(it, ast.Name):
-        ds = fa.df.reaching(lp.id, it.id)
-        if len(ds) == 1 and ds[0].value is not None:
-            src = ds[0].value
-    ok = ok and isinstance(src, ast.Call) and A.call_attr(src) == "sorted" and [A.norm(a) for a in src.args] == [res.id]
+    feed = _digest_feed(fa)
+    ck.need(feed is not None, "_recompute_version: expected one place that feeds the rule hashes to the digest (a loop updating a hasher, or a hasher over a join of the pieces)")
+
+    def all_sorted(it, at):
+        """is the iterated collection exactly sorted(<the result set>)?"""
+        d_ = fa.df.deps(it, at)
+        ok_ = ("call:sorted" in d_ or "call:sort" in d_) and ("local:" + res.id in d_ or any(A.norm(x.value) == "set()" for x in fa.df.reaching(at, res.id)))
+        src = it
+        if isinstance(it, ast.Name):
+            ds = fa.df.reaching(at, it.id)
+            if len(ds) == 1 and ds[0].value is not None:
+                src = ds[0].value
+        return ok_ and isinstance(src, ast.Call) and A.call_attr(src) == "sorted" and [A.norm(a) for a in src.args] == [res.id]
+
+    ok = all_sorted(lp.ast.iter, lp.id) and all_sorted(feed["iter"], feed["iter_at"])
     ck.ob(R, fa.key(lp.ast, "all-rules"), ok, "the digest loop iterates sorted(<all collected rules>)" if ok else
           "the digest loop does not iterate exactly the collected rule set (filtered, truncated or another collection)", fa.where(lp.ast))
-    # self rule is the root with first_level
-    ups = [c for c in A.calls_in(lp.ast) if A.call_attr(c) == "update"]
-    okh = len(ups) == 1
-    if okh:
-        lv = lp.ast.target.id if isinstance(lp.ast.target, ast.Name) else None
-        # fields of the loop variable assigned, inside the loop, from compute_hash()
-        hash_fields = {A.norm(t) for s in A.walk_local(lp.ast)
-                       if isinstance(s, ast.Assign) and "call:compute_hash" in fa.deps(s.value)
-                       for t in s.targets
-                       if isinstance(t, ast.Attribute) and isinstance(t.value, ast.Name) and t.value.id == lv}
+    # the hash of a rule: compute_hash() itself, or a field of the rule that the (unconditional, never abandoned) loop
+    # over all rules assigns from compute_hash()
+    lv = lp.ast.target.id if isinstance(lp.ast.target, ast.Name) else None
+    same_loop = feed["kind"] == "loop" and feed["site"] is lp.ast
+    hash_attrs = set()
+    for s_ in A.walk_local(lp.ast):
+        if isinstance(s_, ast.Assign) and "call:compute_hash" in fa.deps(s_.value):
+            for t in s_.targets:
+                if isinstance(t, ast.Attribute) and isinstance(t.value, ast.Name) and t.value.id == lv:
+                    if same_loop or (fa.conditions(s_) == {frozenset()} and not any(isinstance(x, (ast.Break, ast.Return, ast.Continue)) for x in A.walk_local(lp.ast))):
+                        hash_attrs.add(t.attr)
+    fv = feed["var"]
+    piece = feed["piece"]
 
-        def is_hash(e):
-            return "call:compute_hash" in fa.deps(e) or any(A.norm(x) in hash_fields for x in ast.walk(e) if isinstance(x, ast.Attribute))
+    def is_hash(e):
+        return (same_loop and "call:compute_hash" in fa.deps(e)) or any(isinstance(x, ast.Call) and A.call_attr(x) == "compute_hash" and A.norm(A.call_recv(x)) == fv for x in ast.walk(e)) \
+            or any(isinstance(x, ast.Attribute) and x.attr in hash_attrs and isinstance(x.value, ast.Name) and x.value.id == fv for x in ast.walk(e))
 
-        # texts of `<the rule's hash> is None` as FA.conditions spells it (locals expanded)
-        none_lits = {f_ + " is None" for f_ in hash_fields}
-        for c_ in [c_ for c_ in A.calls_in(lp.ast) if A.call_attr(c_) == "compute_hash"]:
-            none_lits.add(fa.xnorm(c_, fa.nodes(c_)[0]) + " is None")
-        # decided on PATH CONDITIONS: the update is reached exactly when the hash is not None (whether written
-        # as `if h is not None: update`, `if h is None: continue`, or nested), and an iteration is abandoned
-        # early only when the hash is None; the loop is never left early
-        cu = fa.conditions(ups[0])
-        okh = cu is not None and len(cu) == 1 and len(next(iter(cu))) == 1 and all(l[0] in none_lits and l[1] is False for l in next(iter(cu)))
-        for s_ in A.walk_local(lp.ast):
-            if isinstance(s_, (ast.Break, ast.Return)):
-                okh = False
-            if isinstance(s_, ast.Continue):
-                cc = fa.conditions(s_)
-                okh = okh and cc is not None and all(any(l[0] in none_lits and l[1] is True for l in conj) for conj in cc)
-        okh = okh and is_hash(ups[0].args[0])
+    okh = True
+    if feed["kind"] == "loop":
+        fl = feed["site"]
+        ups = [c for c in A.calls_in(fl) if A.call_attr(c) == "update"]
+        okh = len(ups) == 1 and (same_loop or fa.cfg.must_pass([lp.id], feed["iter_at"]))
+        if okh:
+            # texts of `<the rule's hash> is None` as FA.conditions spells it (locals expanded)
+            none_lits = {"%s.%s is None" % (fv, f_) for f_ in hash_attrs}
+            for c_ in [c_ for c_ in A.calls_in(fl) if A.call_attr(c_) == "compute_hash"]:
+                none_lits.add(fa.xnorm(c_, fa.nodes(c_)[0]) + " is None")
+            # decided on PATH CONDITIONS: the update is reached exactly when the hash is not None (whether written
+            # as `if h is not None: update`, `if h is None: continue`, or nested), and an iteration is abandoned
+            # early only when the hash is None; the loop is never left early
+            cu = fa.conditions(ups[0])
+            okh = cu is not None and len(cu) == 1 and len(next(iter(cu))) == 1 and all(l[0] in none_lits and l[1] is False for l in next(iter(cu)))
+            for s_ in A.walk_local(fl):
+                if isinstance(s_, (ast.Break, ast.Return)):
+                    okh = False
+                if isinstance(s_, ast.Continue):
+                    cc = fa.conditions(s_)
+                    okh = okh and cc is not None and all(any(l[0] in none_lits and l[1] is True for l in conj) for conj in cc)
+    else:
+        # the pieces are collected (comprehension / filling loop) and digested at once: the only filter is `hash is None`,
+        # and the collection is made after every rule was given its hash
+        want = [{("_c0.%s is None" % f_, False)} for f_ in hash_attrs] + [{("_c0.compute_hash() is None", False)}]
+        okh = _spec_literals(fa, feed["spec"]) in want and fa.cfg.must_pass([lp.id], feed["iter_at"])
+    okh = okh and is_hash(piece)
     ck.ob(R, fa.key(lp.ast, "only-none-filter"), okh, "every non-None rule hash updates the digest" if okh else
           "a rule's hash can be skipped for a reason other than being None (or the digest is fed something else)", fa.where(lp.ast))
     # the fold is injective: pieces are concatenated into one digest, so either every piece has a
     # fixed width, or a delimiter / length goes in with each piece.  A piece that is a caller-chosen
     # string (an explicit version, a supplied code hash) has no fixed width.
-    if len(ups) == 1:
-        delimited = any(isinstance(x, ast.BinOp) for x in ast.walk(ups[0].args[0])) or "format" in A.norm(ups[0].args[0]) \
-            or isinstance(ups[0].args[0], ast.JoinedStr) or any(isinstance(x, ast.JoinedStr) for x in ast.walk(ups[0].args[0]))
+    ups = [feed["stmt"]]
+    if True:
+        delimited = any(isinstance(x, ast.BinOp) for x in ast.walk(piece)) or "format" in A.norm(piece) \
+            or isinstance(piece, ast.JoinedStr) or any(isinstance(x, ast.JoinedStr) for x in ast.walk(piece)) or feed.get("separated", False)
         init = FA(ck, MF + ".__init__")
         free = []
         for cls in ck.repo.subclasses(ck.repo.cls(CH + ".HashRule")):
@@ -1040,13 +1196,47 @@ def check_enforcement(ck, R):
     ck.rule(R, "dependency enforcement dominates dispatch: call and call_batch validate the caller's declared closure "
                "before dispatching; the validation can only be skipped without a calling frame or when the caller "
                "declares its version", 5)
-    for name in ("call", "call_batch"):
-        fa = FA(ck, MF + "." + name)
-        val = fa.nodes_all([c for c in fa.calls("_validate_dependency") if A.norm(A.call_recv(c)) == "self"])
-        sup = [c for c in fa.calls(name) if isinstance(A.call_recv(c), ast.Call) and A.call_attr(A.call_recv(c)) == "super"]
-        ok = bool(val) and bool(sup) and all(fa.cfg.must_pass(val, i) for i in fa.nodes_all(sup))
-        ck.ob(R, fa.key(None, "validate-before-dispatch"), ok, "%s validates the dependency before dispatching" % name if ok else
-              "%s can dispatch without _validate_dependency(): an undeclared dependency is executed and its changes never invalidate the caller" % name, fa.where())
+    # The two entry points are resolved the way the interpreter resolves them on a MementoFunction (its own method, else
+    # the nearest base class's), and followed through `super().<entry>(...)` / `self.<entry>(...)`: wherever the call is
+    # handed to the runner machinery (the point from which a STORED result can come back), the validation has
+    # been passed on every path - in that function or in one of the overrides that led to it.
+    mf_cls = ck.repo.cls(MF)
+    mro = ck.repo.mro(mf_cls)
+    ENTRIES = ("call", "call_batch")
+    RUN = ("memento_run_batch", "memento_run_local", "batch_run")
+    for name in ENTRIES:
+        seen, bare, n_run = set(), [], [0]
+
+        def walk(start, meth):
+            idx = next((i_ for i_ in range(start, len(mro)) if meth in mro[i_].methods), None)
+            if idx is None or mro[idx].methods[meth].qual in seen:
+                return
+            seen.add(mro[idx].methods[meth].qual)
+            fx = FA(ck, mro[idx].methods[meth])
+            val = fx.nodes_all([c for c in fx.calls("_validate_dependency") if A.norm(A.call_recv(c)) == "self"])
+            for c in fx.calls():
+                rc, nm = A.call_recv(c), A.call_attr(c)
+                via_super = nm in ENTRIES and isinstance(rc, ast.Call) and A.call_attr(rc) == "super"
+                via_self = nm in ENTRIES and isinstance(rc, ast.Name) and rc.id == "self"
+                if not (via_super or via_self or nm in RUN) or not fx.nodes(c):
+                    continue
+                if val and all(fx.cfg.must_pass(val, i_) for i_ in fx.nodes(c)):
+                    n_run[0] += 1
+                    continue
+                n_run[0] += nm in RUN
+                if nm in RUN:
+                    bare.append((fx, c))
+                else:
+                    walk(idx + 1 if via_super else 0, nm)
+
+        walk(0, name)
+        entry = ck.repo.find_method(mf_cls, name)
+        ck.need(entry is not None and n_run[0] > 0, "MementoFunction.%s: no hand-over to the runner (memento_run_batch) found along its super() chain" % name)
+        ok = not bare
+        ck.ob(R, "%s.%s::validate-before-dispatch" % (MF, name), ok, "%s validates the dependency before dispatching" % name if ok else
+              "MementoFunction.%s (%s) reaches `%s` in %s without having passed self._validate_dependency(): a callee whose result is already in the store is "
+              "answered to a caller that never declared it, the caller is memoized under a version that does not cover the callee, and later edits of "
+              "the callee never invalidate the caller" % (name, entry.qual, A.short(bare[0][1], 40), bare[0][0].qual) if bare else "", bare[0][0].where(bare[0][1]) if bare else A.loc(entry, entry.node))
     v = FA(ck, MF + "._validate_dependency")
     # everything below is decided on EXPANSIONS (locals replaced by what they were assigned), so
     # the names of the temporaries do not matter
@@ -1139,6 +1329,87 @@ def check_version_taint(ck, R):
 
 
 # --------------------------------------------------------------------------------- C03
+# types whose repr() is a function of the value alone (no hash-ordered iteration, no address)
+CANONICAL_TEXT_TYPES = {"bool", "int", "float", "complex", "str", "bytes", "bytearray", "range", "type(None)", "NoneType",
+                        "Decimal", "decimal.Decimal", "Fraction", "fractions.Fraction", "datetime.date", "datetime.datetime", "datetime.time",
+                        "datetime.timedelta", "date", "datetime", "time", "timedelta"}
+NAME_ATTRS = {"__name__", "__qualname__", "__module__", "qualified_name_without_version", "qualified_name"}
+_TEXT_CALLS = {"repr", "str", "ascii", "format", "join", "hex", "hexdigest", "decode", "len", "chr", "oct", "bin"}
+
+
+def _rendered_operands(fa):
+    """(rendering node, operand) for every place where a value is turned into text by ITS OWN rendering: repr(x), str(x),
+    ascii(x), format(x), '...'.format(x, k=y), f'{x}', '...' % (x, y)."""
+    out = []
+    for n in A.walk_body(fa.node):
+        if isinstance(n, ast.Call) and isinstance(n.func, ast.Name) and n.func.id in ("repr", "str", "ascii", "format") and n.args:
+            out.append((n, n.args[0]))
+        elif isinstance(n, ast.Call) and isinstance(n.func, ast.Attribute) and n.func.attr in ("format", "format_map") \
+                and (A.str_parts(n.func.value) is not None or isinstance(n.func.value, ast.Name)):
+            out += [(n, a.value if isinstance(a, ast.Starred) else a) for a in n.args] + [(n, k.value) for k in n.keywords]
+        elif isinstance(n, ast.JoinedStr):
+            out += [(n, v.value) for v in n.values if isinstance(v, ast.FormattedValue)]
+        elif isinstance(n, ast.BinOp) and isinstance(n.op, ast.Mod) and (isinstance(n.left, ast.JoinedStr) or A.const_str(n.left) is not None):
+            out += [(n, x) for x in (n.right.elts if isinstance(n.right, ast.Tuple) else [n.right])]
+    return out
+
+
+def _bound_in_expression(fa, e):
+    """Does `e` mention a variable bound by a comprehension / lambda around it (no branch test can speak about it)?"""
+    names = {x.id for x in ast.walk(e) if isinstance(x, ast.Name)}
+    cur = fa.pm.get(e)
+    while cur is not None and not isinstance(cur, ast.stmt):
+        if isinstance(cur, (ast.ListComp, ast.SetComp, ast.GeneratorExp, ast.DictComp)):
+            for g in cur.generators:
+                if names & {x.id for x in ast.walk(g.target) if isinstance(x, ast.Name)}:
+                    return True
+        if isinstance(cur, ast.Lambda) and names & {a.arg for a in cur.args.args + cur.args.kwonlyargs}:
+            return True
+        cur = fa.pm.get(cur)
+    return False
+
+
+def _text_is_canonical(fa, e, at, renderers, depth=5):
+    """Is the text of `e` canonical by construction: a constant, a name-like attribute, the result of one of the
+    renderers / of a text-producing call (judged at its own site), or built from such?"""
+    if isinstance(e, ast.Constant) or isinstance(e, ast.JoinedStr):
+        return True
+    if isinstance(e, ast.Attribute):
+        return e.attr in NAME_ATTRS
+    if isinstance(e, ast.Call):
+        nm = A.call_attr(e)
+        return nm in renderers or nm in _TEXT_CALLS
+    if isinstance(e, ast.IfExp):
+        return _text_is_canonical(fa, e.body, at, renderers, depth) and _text_is_canonical(fa, e.orelse, at, renderers, depth)
+    if isinstance(e, ast.BinOp) and isinstance(e.op, (ast.Add, ast.Mod)):
+        return A.str_parts(e) is not None or (_text_is_canonical(fa, e.left, at, renderers, depth) and _text_is_canonical(fa, e.right, at, renderers, depth))
+    if isinstance(e, ast.Name) and depth > 0 and not _bound_in_expression(fa, e):
+        alts_ = _alternatives(fa, e, at)
+        if all(not (isinstance(x, ast.Name) and x.id == e.id) for (x, _a) in alts_):
+            return all(_text_is_canonical(fa, x, a_, renderers, depth - 1) for (x, a_) in alts_)
+    return False
+
+
+def _scalar_type_literal(text, subject):
+    """Does the (positive) literal say that `subject` is None / Ellipsis / of a type with canonical text?"""
+    e = _parse_lit(text) if isinstance(text, str) else text
+    if e is None:
+        return False
+    if isinstance(e, ast.BoolOp):
+        # a disjunction taken true stays one literal: every alternative must say so; of a conjunction, one part
+        return (all if isinstance(e.op, ast.Or) else any)(_scalar_type_literal(v, subject) for v in e.values)
+    if isinstance(e, ast.Compare) and len(e.ops) == 1 and isinstance(e.ops[0], ast.Is) and A.norm(e.left) == subject:
+        c = e.comparators[0]
+        return (isinstance(c, ast.Constant) and (c.value is None or c.value is Ellipsis)) or A.norm(c) == "Ellipsis"
+    it = A.isinstance_types(e)
+    if it and it[0] == subject:
+        return set(it[1]) <= CANONICAL_TEXT_TYPES
+    if isinstance(e, ast.Compare) and len(e.ops) == 1 and isinstance(e.ops[0], (ast.Is, ast.Eq, ast.In)) and A.norm(e.left) == "type(%s)" % subject:
+        c = e.comparators[0]
+        return set(A.norm(x) for x in (c.elts if isinstance(c, (ast.Tuple, ast.List, ast.Set)) else [c])) <= CANONICAL_TEXT_TYPES
+    return False
+
+
 def _stable_repr_function(ck, name):
     """A module-level function of code_hash that sorts set elements (canonical repr)."""
     m = ck.repo.module(CH)
@@ -1215,6 +1486,8 @@ def check_determinism_taint(ck, R):
     env = cfgm.assigns.get("ENVIRONMENT_HASH_BYTES")
     ck.need(env is not None, "configuration.ENVIRONMENT_HASH_BYTES not found")
     env = _module_expand(cfgm, env)
+    opaque = sorted({c.func.id for c in ast.walk(env) if isinstance(c, ast.Call) and isinstance(c.func, ast.Name) and c.func.id in cfgm.functions})
+    ck.need(not opaque, "configuration.ENVIRONMENT_HASH_BYTES is computed by %s, which the check cannot read as a single expression" % opaque)
     dumps = [c for c in ast.walk(env) if isinstance(c, ast.Call) and A.call_attr(c) == "dumps"]
     oke = len(dumps) == 1 and A.norm(A.kwarg(dumps[0], "sort_keys")) == "True" and not any(
         isinstance(c, ast.Call) and A.call_attr(c) in NONDETERMINISTIC_CALLS | {"platform", "version_info", "getcwd", "gethostname"} for c in ast.walk(env))
@@ -1265,6 +1538,30 @@ def check_determinism_taint(ck, R):
                       "rendered for whichever was seen first, so a function's version depends on what else was hashed before it in that process"
                       % (fi.qual, A.short(dn, 50)), A.loc(fi, fi.node))
     ck.ob(R, CH + "::renderer-not-memoised::scan", True, "%d equality-keyed caches among the renderers of hashed text (%s)" % (n_cached, sorted(closure)), "")
+    # inside those renderers an object's OWN text (repr / str / format of the object itself) is used only where a type
+    # test on the path has established a type whose text is canonical; anything else goes through the renderer
+    # recursively or is described by names
+    n_sites = 0
+    for fi in [f_ for f_ in ck.repo.module(CH).all_funcs() if f_.parent is None and f_.cls is None and f_.name in closure - {"fn_code_hash"}]:
+        fr = FA(ck, fi)
+        for (site, operand) in _rendered_operands(fr):
+            st = fr.stmt_of(site)
+            if st is None or not fr.nodes(st):
+                continue
+            at = fr.nodes(st)[0]
+            if _text_is_canonical(fr, operand, at, closure):
+                continue
+            n_sites += 1
+            subject = fr.xnorm(operand, at) if not _bound_in_expression(fr, operand) else None
+            conds = fr.conditions(st) if subject is not None else None
+            okg = conds is not None and bool(conds) and all(any(pol and _scalar_type_literal(txt, subject) for (txt, pol) in conj) for conj in conds)
+            ck.ob(R, fr.key(st, "own-text-only-of-scalars:" + A.norm(operand)[:30]), okg,
+                  "`%s` is rendered with its own text only where it is known to be a scalar" % A.short(operand, 30) if okg else
+                  "`%s` puts the object's own text (`%s`) into the hashed rendering without a type test that makes that text canonical: the repr / str of an "
+                  "arbitrary object (a dataclass or namedtuple holding a set, an object with the default repr) prints in hash-seed order or with a "
+                  "memory address, so the code hash of a function with such a constant or default differs between processes"
+                  % (A.short(site, 50), A.short(operand, 30)), fr.where(site))
+    ck.ob(R, CH + "::own-text-only-of-scalars::scan", True, "%d renderings of an object's own text in the renderers of hashed text" % n_sites, "")
     # dict-valued dumps
     sv = FA(ck, CH + ".GlobalVariableHashRule._serialize_value")
     for c in sv.calls("dumps"):
@@ -1328,12 +1625,13 @@ def check_ordered_iteration(ck, R):
     ck.rule(R, "ordered iteration: every loop feeding a version digest iterates a sorted sequence or a tuple; hash rules "
                "are ordered, compared and hashed on the same key", 3)
     fa = FA(ck, MF + "._recompute_version")
-    loops = [n for n in fa.cfg.nodes if n.kind == "for" and any(A.call_attr(c) == "update" for c in A.calls_in(n.ast))]
-    lp = fa.one(loops, "digest loop")
-    d = fa.df.deps(lp.ast.iter, lp.id)
+    feed = _digest_feed(fa)
+    ck.need(feed is not None, "_recompute_version: expected one place that feeds the rule hashes to the digest (a loop updating a hasher, or a hasher over a join of the pieces)")
+    d = fa.df.deps(feed["iter"], feed["iter_at"])
     ok = "call:sorted" in d
-    ck.ob(R, fa.key(lp.ast, "sorted"), ok, "rules are digested in sorted order" if ok else
-          "the digest loop iterates an unordered set: the version depends on hash randomisation / definition order", fa.where(lp.ast))
+    site = feed["site"] if feed["kind"] == "loop" else fa.stmt_of(feed["site"])
+    ck.ob(R, fa.key(site, "sorted"), ok, "rules are digested in sorted order" if ok else
+          "the digest loop iterates an unordered set: the version depends on hash randomisation / definition order", fa.where(site))
     # the order must be total on the rule set: the rules' own ordering (on the unique key) or a
     # key function that includes that key
     base = ck.repo.cls(CH + ".HashRule")
@@ -1420,17 +1718,28 @@ def check_update_protocol(ck, R):
                 return ("same-version", None)
             # emptiness of the changed-rule collection: len(C) > 0 / != 0 / >= 1 / == 0 / < 1, either operand order
             for (x_, y_, flip) in ((e.left, e.comparators[0], False), (e.comparators[0], e.left, True)):
-                if isinstance(x_, ast.Call) and A.norm(x_.func) == "len" and len(x_.args) == 1 and changed_coll(x_.args[0]):
+                if isinstance(x_, ast.Call) and A.norm(x_.func) == "len" and len(x_.args) == 1 and (changed_coll(x_.args[0]) or _is_empty_container(x_.args[0])):
                     op = type(e.ops[0]).__name__
                     if flip:
                         op = {"Gt": "Lt", "Lt": "Gt", "GtE": "LtE", "LtE": "GtE"}.get(op, op)
                     k_ = A.norm(y_)
-                    nonempty = {("Gt", "0"): True, ("GtE", "1"): True, ("Eq", "0"): False, ("Lt", "1"): False, ("LtE", "0"): False}.get((op, k_))
-                    return ("changed", (changed_coll(x_.args[0]), nonempty))
+                    nonempty = {("Gt", "0"): True, ("GtE", "1"): True, ("NotEq", "0"): True, ("Eq", "0"): False, ("Lt", "1"): False, ("LtE", "0"): False}.get((op, k_))
+                    if not changed_coll(x_.args[0]):
+                        # the length of a collection that is empty on this path: the test is decided
+                        return ("const", not nonempty) if nonempty is not None else (None, None)
+                    return ("changed", (changed_coll(x_.args[0]), nonempty, A.norm_alpha(x_.args[0])))
+        if isinstance(e, ast.Call) and A.norm(e.func) == "any" and len(e.args) == 1 and not e.keywords and isinstance(e.args[0], (ast.GeneratorExp, ast.ListComp)) \
+                and len(e.args[0].generators) == 1:
+            # any(r.did_change() for r in self._hash_rules): the same question, asked rule by rule
+            g_ = e.args[0].generators[0]
+            if isinstance(g_.target, ast.Name) and A.norm(g_.iter) == "self._hash_rules" and not g_.ifs and A.norm(e.args[0].elt) == g_.target.id + ".did_change()":
+                return ("changed", ("exact", True, A.norm_alpha(e)))
         if changed_coll(e) is not None:
-            return ("changed", (changed_coll(e), True))
+            return ("changed", (changed_coll(e), True, A.norm_alpha(e)))
+        if _is_empty_container(e):
+            return ("const", False)
         if "did_change()" in text:
-            return ("changed", ("partial", None))
+            return ("changed", ("partial", None, text))
         return (None, None)
 
     roles = {}
@@ -1438,6 +1747,30 @@ def check_update_protocol(ck, R):
         for t in lits:
             if t not in roles:
                 roles[t] = classify(t)
+    # one question, one literal: "is some rule of <collection> changed" however the emptiness test is spelt (len(C) > 0,
+    # len(C) == 0, != 0, C itself ...), so that two tests of the same collection on one path agree; tests decided by an
+    # empty literal drop out (and make the paths that contradict them infeasible)
+    spelt = {}
+    canon_paths = []
+    for (pth, lits) in paths:
+        nl, feasible = {}, True
+        for t, pol in lits.items():
+            ro, det = roles[t]
+            if ro == "const":
+                feasible = feasible and pol == det
+                continue
+            if ro == "changed" and det[1] is not None:
+                key = "<some rule changed: %s>" % det[2]
+                spelt.setdefault(key, []).append(t)
+                roles.setdefault(key, ("changed", (det[0], True, det[2])))
+                t, pol = key, (pol == det[1])
+            if nl.get(t, pol) != pol:
+                feasible = False
+            nl[t] = pol
+        if feasible:
+            canon_paths.append((pth, nl))
+    paths = canon_paths
+    roles = {t: r_ for t, r_ in roles.items() if any(t in lits for (_p, lits) in paths)}
     by_role = {}
     for t, (ro, det) in roles.items():
         if ro is not None:
@@ -1455,7 +1788,7 @@ def check_update_protocol(ck, R):
         for n_ in cfg.nodes:
             if n_.kind == "test" and n_.id in cfg.reachable_nodes():
                 for (txt, _pol) in fa._atoms(n_.ast, n_.id, True) + fa._atoms(n_.ast, n_.id, False):
-                    if txt == text:
+                    if txt == text or txt in spelt.get(text, ()):
                         return n_.ast
         return None
 
@@ -1471,7 +1804,7 @@ def check_update_protocol(ck, R):
         for n_ in cfg.nodes:
             if ct is None and n_.kind == "test" and any(isinstance(x, ast.Name) and x.id in acc_ for x in ast.walk(n_.ast)):
                 ct = n_.ast
-    chg_kind, chg_nonempty = roles[T_CHG][1]
+    chg_kind, chg_nonempty = roles[T_CHG][1][0], roles[T_CHG][1][1]
     okct = chg_nonempty is not None
     ck.ob(R, fa.key(ct, "changed-test"), okct, "any changed rule counts" if okct else "the changed-rules test is not 'non-empty'", fa.where(ct))
 
@@ -1510,13 +1843,18 @@ def check_update_protocol(ck, R):
     # (b) changed => bump and recompute
     incs = set(fa.nodes_all(fa.calls("increment_global_fn_generation")))
     ok_b = bool(incs) and any(changed(lits) is True for (_p, lits) in paths)
+    late = False
     for (pth, lits) in paths:
         if changed(lits) is True:
             i_inc = first(pth, incs)
             i_rec = first(pth, recs)
             if i_inc is None or i_rec is None or i_rec < i_inc:
                 ok_b = False
-    ck.ob(R, fa.key(ct, "changed-bumps-and-recomputes"), ok_b, "a changed rule bumps the generation and leads to recomputation" if ok_b else
+                late = late or (i_inc is not None and i_rec is not None)
+    ck.ob(R, fa.key(ct, "changed-bumps-and-recomputes"), ok_b, "a changed rule bumps the generation, then recomputes" if ok_b else
+          "after a changed rule the updater recomputes BEFORE it bumps the generation (or bumps it only on some of those paths): while the recomputation "
+          "is under way (the rule list already replaced by fresh rules, the calculated version and the reference not yet) every other caller still "
+          "finds an entry of the current generation and no changed rule, keeps the old version and is served the result of the earlier edition" if late else
           "after a changed rule the updater can return without bumping the generation and recomputing", fa.where(ct))
     # (c) every path through recompute stores a current-generation cache entry
     def nt_fields(ctor):
@@ -1712,54 +2050,81 @@ def check_did_change(ck, R):
         ck.need(m is not None, "%s.did_change not found" % cls.qual)
         fa = FA(ck, m)
         captured = want.get(cls.name, ())
-        ok = False
-        why = ""
-        # the answer False without a comparison is allowed only when nothing is tracked.  Decided on PATH
-        # CONDITIONS of every way the constant False can be answered: a `return False`, or a result variable
-        # that still holds its initial False at the return (FA.outcomes)
+        presence = cls.name == "UndefinedSymbolHashRule"
+        # the answer False without a comparison is allowed only when nothing is tracked
         allowed_false_guard = {"GlobalVariableHashRule": (("self.last_value is None", True),)}.get(cls.name, ())
 
-        def is_false(e):
-            return isinstance(e, ast.Constant) and e.value is False
+        def judge(e, at):
+            """(fresh, captured, compares) for an expression evaluated at CFG node `at`: does its value come from a fresh
+            resolution, from the captured state, through a comparison?"""
+            d = fa.df.deps(e, at)
+            fl = list(_flow(fa, e, at).values())
+            has_in = any(isinstance(n, ast.Compare) and isinstance(n.ops[0], (ast.In, ast.NotIn)) for n in fl)
+            fresh = "call:resolver" in d or (presence and ("call:hasattr" in d or has_in))
+            cap = all(("attr:self." + c) in d for c in captured)
+            cmp_ = any(isinstance(n, ast.Compare) and isinstance(n.ops[0], (ast.Is, ast.IsNot, ast.Eq, ast.NotEq, ast.In, ast.NotIn)) for n in fl) or "call:hasattr" in d
+            return fresh, cap, cmp_
 
-        shortcut = set()
+        # the literals of the branch tests that are themselves the comparison (fresh resolution against captured state)
+        real_lits = set()
+        for n_ in fa.cfg.nodes:
+            if n_.kind == "test" and n_.id in fa.cfg.reachable_nodes():
+                for pos in (True, False):
+                    for (txt, _pol) in fa._atoms(n_.ast, n_.id, pos):
+                        for atom in [x for x in ast.walk(n_.ast) if isinstance(x, (ast.Compare, ast.Call, ast.Name))]:
+                            if fa._literal(atom, n_.id, True)[0] == txt and all(judge(atom, n_.id)):
+                                real_lits.add(txt)
+
+        def is_bool(e):
+            return isinstance(e, ast.Constant) and isinstance(e.value, bool)
+
+        ok = None
+        why = ""
+        decided = 0
         for r in fa.returns():
             if r.value is None or not fa.nodes(r):
                 continue
-            conjs = None
-            if is_false(r.value):
-                conjs = fa.conditions(r)
-            elif isinstance(r.value, ast.Name) and any(d.value is not None and is_false(d.value) for i_ in fa.nodes(r) for d in fa.df.reaching(i_, r.value.id)):
+            # every way the answer is given: a constant under path conditions (`return False`, or a result variable that
+            # still holds a constant at the return - FA.outcomes), or an expression
+            const_ways = []   # (constant, [conjunctions])
+            if is_bool(r.value):
+                const_ways.append((r.value.value, fa.conditions(r)))
+            elif isinstance(r.value, ast.Name) and any(d.value is not None and is_bool(d.value) for i_ in fa.nodes(r) for d in fa.df.reaching(i_, r.value.id)):
                 oc = fa.outcomes(r.value.id)
-                conjs = None if oc is None else [lits for (lits, txt) in oc if txt == "False"]
-            else:
+                for cv in (True, False):
+                    conjs = None if oc is None else [lits for (lits, txt) in oc if txt == repr(cv)]
+                    if conjs is None or conjs:
+                        const_ways.append((cv, conjs))
+            for (cv, conjs) in const_ways:
+                by_comparison = conjs is not None and bool(conjs) and all(any(l[0] in real_lits for l in conj) for conj in conjs)
+                if by_comparison:
+                    decided += 1
+                    continue
+                if cv is True:
+                    continue  # "changed" without looking costs a recomputation, never a stale version
+                okg = conjs is not None and all(any(l in conj for l in allowed_false_guard) or any(l[0] in real_lits for l in conj) for conj in conjs)
+                extra = sorted({("" if l[1] else "not ") + l[0] for conj in (conjs or []) for l in conj if l not in allowed_false_guard and l[0] not in real_lits})
+                unguarded = conjs is not None and any(not conj for conj in conjs)
+                ck.ob(R, fa.key(r, "no-shortcut"), okg, "False is answered without comparing only when nothing is tracked" if okg else
+                      "%s.did_change answers False early under `%s`: a value changed without re-binding the name (list.append, dict[k] = v) or "
+                      "an equal-looking replacement is never noticed" % (cls.name, "; ".join(extra)[:80] if extra else "no guard"), fa.where(r))
+                if unguarded and ok is None:
+                    ok, why = False, "returns the constant False"
+            if const_ways and not (isinstance(r.value, ast.Name)):
                 continue
-            shortcut.add(id(r))
-            okg = conjs is not None and all(any(l in conj for l in allowed_false_guard) for conj in conjs)
-            extra = sorted({("" if l[1] else "not ") + l[0] for conj in (conjs or []) for l in conj if l not in allowed_false_guard})
-            ck.ob(R, fa.key(r, "no-shortcut"), okg, "False is answered without comparing only when nothing is tracked" if okg else
-                  "%s.did_change answers False early under `%s`: a value changed without re-binding the name (list.append, dict[k] = v) or "
-                  "an equal-looking replacement is never noticed" % (cls.name, "; ".join(extra)[:80] if extra else "no guard"), fa.where(r))
-        rets = [r for r in fa.returns() if r.value is not None and fa.nodes(r) and not (is_false(r.value) and id(r) in shortcut and fa.enclosing(r, ast.If) is not None)]
-        if not rets:
-            why = "returns a constant"
-        for r in rets:
-            d = fa.deps(r.value)
-            fl = list(_flow(fa, r.value).values())
-            has_in = any(isinstance(n, ast.Compare) and isinstance(n.ops[0], ast.In) for n in fl)
-            fresh = "call:resolver" in d or (cls.name == "UndefinedSymbolHashRule" and ("call:hasattr" in d or has_in))
-            cap = all(("attr:self." + c) in d for c in captured)
-            cmp_ = any(isinstance(n, ast.Compare) and isinstance(n.ops[0], (ast.Is, ast.IsNot, ast.Eq, ast.NotEq, ast.In, ast.NotIn)) for n in fl) or "call:hasattr" in d
-            if isinstance(r.value, ast.Constant):
-                why = "returns the constant %r" % r.value.value
-                ok = False
-                break
-            ok = fresh and cap and cmp_
-            if not ok:
-                why = ("does not re-resolve the symbol" if not fresh else
-                       "does not compare with the captured %s (a type test alone cannot see that the name now designates a different object)" % "/".join(captured) if not cap else
-                       "does not compare")
-                break
+            # an expression (or a result variable that may hold one)
+            for i_ in fa.nodes(r):
+                fresh, cap, cmp_ = judge(r.value, i_)
+                if fresh and cap and cmp_:
+                    decided += 1
+                elif ok is None and not (const_ways and not (fresh or cap or cmp_)):
+                    ok = False
+                    why = ("does not re-resolve the symbol" if not fresh else
+                           "does not compare with the captured %s (a type test alone cannot see that the name now designates a different object)" % "/".join(captured) if not cap else
+                           "does not compare")
+        if ok is None:
+            ok = decided > 0
+            why = why or "returns a constant"
         ck.ob(R, fa.key(None), ok, "%s.did_change compares a fresh resolution with the captured %s" % (cls.name, "/".join(captured)) if ok else
               "%s.did_change %s" % (cls.name, why), fa.where())
 
@@ -1782,72 +2147,284 @@ def check_every_symbol_watched(ck, R):
           "(path %s)" % v.cfg.describe_path(p), v.where())
 
 
+def _closures_denoted(fa, expr, at, depth=6, _via=()):
+    """The nested functions / lambdas of `fa`'s function that `expr` (evaluated at CFG node `at`) may denote, followed through
+    local aliases and conditional expressions: a list of (closure AST, CFG node where it is created, nodes of the aliasing
+    assignments it came through)."""
+    if depth <= 0 or expr is None:
+        return []
+    if isinstance(expr, ast.Lambda):
+        return [(expr, at, _via)]
+    if isinstance(expr, ast.Call) and A.call_attr(expr) == "partial" and expr.args:
+        # functools.partial binds the ARGUMENTS now; what the function itself reads from the enclosing scope stays late-bound
+        return _closures_denoted(fa, expr.args[0], at, depth - 1, _via)
+    if isinstance(expr, ast.IfExp):
+        return _closures_denoted(fa, expr.body, at, depth - 1, _via) + _closures_denoted(fa, expr.orelse, at, depth - 1, _via)
+    if isinstance(expr, ast.BoolOp):
+        return [c for v in expr.values for c in _closures_denoted(fa, v, at, depth - 1, _via)]
+    if isinstance(expr, ast.Name):
+        out = []
+        for d in fa.df.reaching(at, expr.id):
+            if d.kind == "def" and isinstance(d.stmt, (ast.FunctionDef, ast.AsyncFunctionDef)):
+                out.append((d.stmt, d.node, _via))
+            elif d.kind == "assign" and d.value is not None:
+                out += _closures_denoted(fa, d.value, d.node, depth - 1, _via + (d.node,))
+        return out
+    return []
+
+
+def _closure_reads(fa, closure, _seen=None):
+    """Names of the enclosing function's scope that the closure reads when it is CALLED (default values are evaluated when
+    it is made and are not among them), including what the sibling nested functions it calls read."""
+    seen = _seen if _seen is not None else set()
+    if id(closure) in seen:
+        return set()
+    seen.add(id(closure))
+    a_ = closure.args
+    own = {x.arg for x in a_.posonlyargs + a_.args + a_.kwonlyargs} | ({a_.vararg.arg} if a_.vararg else set()) | ({a_.kwarg.arg} if a_.kwarg else set())
+    body = closure.body if isinstance(closure.body, list) else [closure.body]
+    loads = set()
+    for b_ in body:
+        for n in ast.walk(b_):
+            if isinstance(n, ast.Name):
+                if isinstance(n.ctx, ast.Load):
+                    loads.add(n.id)
+                else:
+                    own.add(n.id)
+            elif isinstance(n, (ast.FunctionDef, ast.AsyncFunctionDef)):
+                own.add(n.name)
+            elif isinstance(n, ast.arg):
+                own.add(n.arg)
+    free = {x for x in loads - own if fa.df.is_local(x)}
+    for x in list(free):
+        sib = fa.fi.nested.get(x)
+        if sib is not None and sib.node is not closure:
+            free |= _closure_reads(fa, sib.node, seen)
+    return free
+
+
+def _defs_by_name(fx):
+    out = {}
+    for nid, ds in fx.df.gen.items():
+        for d in ds:
+            out.setdefault(d.name, set()).add(nid)
+    return out
+
+
+def _rebound_after_made(fx, node, dn, uses):
+    """Late binding: a closure reads its free variables when it is CALLED (by did_change, long after the function that made
+    it returned).  So none of them may be re-bound (a) between the making of the closure and a place where it is handed
+    out, nor (b) after it was handed out, unless on a path where the receiver gave nothing back (`<result> is None`).
+    `uses` = [(site AST, CFG node, alias assignment nodes, the expression that denotes the closure there)].
+    Returns (variable, CFG node of the re-binding, description) or None."""
+    defs_of = _defs_by_name(fx)
+    live = fx.cfg.reachable_nodes()
+    is_def = not isinstance(node, ast.Lambda)
+    for x in sorted(_closure_reads(fx, node)):
+        xs = defs_of.get(x, set()) & live
+        if not xs:
+            continue
+        for (c, un, via, arg) in uses:
+            arg_names = {a_.id for a_ in ast.walk(arg) if isinstance(a_, ast.Name)}
+            killers = ({dn} | {nid for nm_ in arg_names | ({node.name} if is_def else set()) for nid in defs_of.get(nm_, set())}) - set(via)
+            if is_def or via:
+                after_make = fx.cfg.reach([dn], removed=killers, include_start=False)
+                for X in sorted(xs & after_make):
+                    if X not in via and un in fx.cfg.reach([X], removed=killers - {X}, include_start=True):
+                        return (x, X, "between the making of the closure and `%s`" % A.short(c, 50))
+            if isinstance(c, ast.Return):
+                continue
+            st = fx.stmt_of(c)
+            none_edges = set()
+            if isinstance(st, ast.Assign) and len(st.targets) == 1 and isinstance(st.targets[0], ast.Name):
+                r_ = st.targets[0].id
+                for t in fx.cfg.nodes:
+                    if t.kind == "test" and isinstance(t.ast, ast.Compare) and len(t.ast.ops) == 1 and isinstance(t.ast.ops[0], (ast.Is, ast.IsNot)) \
+                            and A.is_none(t.ast.comparators[0]) and isinstance(t.ast.left, ast.Name) and t.ast.left.id == r_ \
+                            and {d.node for d in fx.df.reaching(t.id, r_)} == {un}:
+                        none_edges.add((t.id, "T" if isinstance(t.ast.ops[0], ast.Is) else "F"))
+            after_use = fx.cfg.reach([un], edge_ok=lambda s_, d_, l_: (s_, l_) not in none_edges, include_start=False)
+            for X in sorted(xs & after_use):
+                return (x, X, "after the closure was handed to `%s`" % A.short(c, 50))
+    return None
+
+
+def _none_for_missing(node):
+    """Places in a resolver body that answer None for a name that is not there."""
+    nones = []
+    for x in ast.walk(node):
+        if isinstance(x, ast.IfExp) and A.is_none(x.orelse) and isinstance(x.test, ast.Compare) and isinstance(x.test.ops[0], ast.In):
+            nones.append(x)
+        if isinstance(x, ast.Call) and A.call_attr(x) == "getattr" and len(x.args) == 3 and A.is_none(x.args[2]):
+            nones.append(x)
+        if isinstance(x, ast.Call) and A.call_attr(x) == "get" and "global_table" in A.norm(A.call_recv(x)) and (len(x.args) == 1 or A.is_none(x.args[1])):
+            nones.append(x)
+    return nones
+
+
+def _closure_factory(ck, v, call):
+    """The function of this package that `call` invokes, when that function RETURNS one of its nested functions / lambdas
+    (a resolver factory): (FA of the factory, [(closure, creation node, [return uses])]) or None."""
+    f = call.func
+    fi = None
+    if isinstance(f, ast.Name):
+        kinds = {d.kind for ds in v.df.gen.values() for d in ds if d.name == f.id}
+        if f.id in v.fi.params or kinds - {"def"}:
+            return None  # a local variable of that name
+        fi = v.fi.nested.get(f.id) if kinds else ck.repo.module(CH).functions.get(f.id)
+    elif isinstance(f, ast.Attribute) and isinstance(f.value, ast.Name) and f.value.id in ("HashRule", "cls", "self"):
+        fi = ck.repo.find_method(ck.repo.cls(CH + ".HashRule"), f.attr)
+    if fi is None or fi.node is v.node:
+        return None
+    fx = FA(ck, fi)
+    made = {}
+    for r in fx.returns():
+        if r.value is None:
+            continue
+        for rn in fx.nodes(r):
+            for (cl, dn, via) in _closures_denoted(fx, r.value, rn):
+                made.setdefault(id(cl), (cl, dn, []))[2].append((r, rn, via, r.value))
+    return (fx, list(made.values())) if made else None
+
+
 def check_resolver_closures(ck, R):
-    ck.rule(R, "resolvers re-resolve from the root: a function passed as a rule's resolver closes over the global table "
-               "and name parts only, never over an object obtained by evaluating the dotted chain", 2)
+    ck.rule(R, "resolvers re-resolve from the root: a function handed out as a rule's resolver closes over the global table "
+               "and name parts only, never over an object obtained by evaluating the dotted chain, and over nothing that is "
+               "re-bound after it was handed out", 2)
     n_res = 0
+    LATE = ("the resolver reads `%s` from the enclosing scope when it is called, and `%s` is re-bound (line %s) %s: the rule that keeps this resolver "
+            "walks the path of a LATER step (late binding), e.g. an undefined-symbol rule asks the wrong object whether the attribute appeared, "
+            "so a later definition of the symbol never changes the version")
+    NONE_MSG = ("`%s`: the resolver answers None for a name that no longer exists, the same as for a name bound to None: deleting a tracked variable "
+                "whose value is None leaves the cached version in place although a fresh computation sees an undefined symbol")
+
+    def line_of(fx, nid):
+        a_ = fx.cfg.node(nid).ast
+        return getattr(a_, "lineno", "?")
+
     for v in _visit_unit(ck):
-        # names derived from evaluation: assigned from a resolver()/getattr()/subscript of the global table, or from `ref`
+        # the closures that are handed out: nested functions / lambdas passed as an argument of some call of the visit,
+        # directly, through a local alias, or made by a factory function called for the purpose
+        handed = {}    # id(closure) -> (closure, creation node, [(use call, use node, alias nodes, argument)])
+        factories = {}  # id(factory call) -> (factory call, its node)
+        partials = {}   # id(partial(<module function>, ...) call) -> (call, its node)
+        for c in v.calls():
+            for un in v.nodes(c):
+                for arg in list(c.args) + [k.value for k in c.keywords]:
+                    arg = arg.value if isinstance(arg, ast.Starred) else arg
+                    for (cl, dn, via) in _closures_denoted(v, arg, un):
+                        handed.setdefault(id(cl), (cl, dn, []))[2].append((c, un, via, arg))
+                    for (e, a_) in _alternatives(v, arg, un):
+                        if isinstance(e, ast.Call) and e is not arg and _closure_factory(ck, v, e) is not None:
+                            factories.setdefault(id(e), (e, a_))
+                        if isinstance(e, ast.Call) and A.call_attr(e) == "partial" and e.args and isinstance(e.args[0], ast.Name) \
+                                and e.args[0].id in ck.repo.module(CH).functions and not v.df.is_local(e.args[0].id):
+                            partials.setdefault(id(e), (e, a_))
+                    if isinstance(arg, ast.Call) and _closure_factory(ck, v, arg) is not None:
+                        factories.setdefault(id(arg), (arg, un))
+        # names derived from evaluation: assigned from a call of such a closure, a getattr() or a subscript of the global table
         derived = set()
         changed = True
         assigns = [(s, t.id) for s in v.stmts(ast.Assign) for t in s.targets if isinstance(t, ast.Name)]
+
+        def calls_resolver(n, at):
+            if not isinstance(n.func, ast.Name):
+                return False
+            if any(id(cl) in handed for (cl, _d, _v) in _closures_denoted(v, n.func, at)):
+                return True
+            return any(isinstance(e, ast.Call) and (id(e) in factories or id(e) in partials) for (e, _a) in _alternatives(v, n.func, at))
+
         while changed:
             changed = False
             for (s, name) in assigns:
-                if name in derived:
+                if name in derived or not v.nodes(s):
                     continue
                 val = s.value
                 is_eval = False
                 for n in ast.walk(val):
                     if isinstance(n, ast.Call) and (A.call_attr(n) in ("getattr",) or (isinstance(n.func, ast.Name) and n.func.id.startswith("resolver")) or A.call_attr(n) == "memento_fn_resolver"):
                         is_eval = True
-                    if isinstance(n, ast.Subscript) and A.norm(n.value) == "global_table":
+                    if isinstance(n, ast.Call) and calls_resolver(n, v.nodes(s)[0]):
+                        is_eval = True
+                    if isinstance(n, ast.Subscript) and (A.norm(n.value) == "global_table" or v.xnorm(n.value, v.nodes(s)[0]).endswith(".__globals__")):
                         is_eval = True
                     if isinstance(n, ast.Name) and n.id in derived:
                         is_eval = True
                 if is_eval:
                     derived.add(name)
                     changed = True
-        for name, sub in v.fi.nested.items():
-            if not name.startswith("resolver"):
-                continue
-        # all nested defs named like resolvers (there can be several with the same name: walk the AST)
-        for node in ast.walk(v.node):
-            if isinstance(node, ast.FunctionDef) and node is not v.node and "resolver" in node.name and node.name != "resolve_symbol":
-                n_res += 1
-                params = {a.arg for a in node.args.args + node.args.kwonlyargs}
-                local = set(params)
-                for s in ast.walk(node):
-                    if isinstance(s, ast.Assign):
-                        for t in s.targets:
-                            if isinstance(t, ast.Name):
-                                local.add(t.id)
-                    if isinstance(s, (ast.For, ast.comprehension)) and isinstance(s.target, ast.Name):
-                        local.add(s.target.id)
-                free = {n.id for b in node.body for n in ast.walk(b) if isinstance(n, ast.Name) and isinstance(n.ctx, ast.Load)} - local
-                bad = sorted(free & derived)
-                ck.ob(R, "%s::def %s@%s" % (v.qual, node.name, "loop" if v.enclosing(node, ast.For) is not None else "top"), not bad,
-                      "resolver re-resolves from the global table" if not bad else
-                      "resolver closes over %s, an object obtained while evaluating the chain: when an intermediate object is replaced "
-                      "(class re-executed, module attribute rebound) the rule keeps looking at the old object and did_change never fires" % bad,
-                      A.loc(v.fi, node))
+        bodies = {}
+        for (node, dn, uses) in sorted(handed.values(), key=lambda h: getattr(h[0], "lineno", 0)):
+            n_res += 1
+            is_def = not isinstance(node, ast.Lambda)
+            label = "def %s@%s" % (node.name, "loop" if v.enclosing(node, ast.For) is not None else "top") if is_def else "lambda %s" % A.short(node.body, 40)
+            free = _closure_reads(v, node)
+            bad = sorted(free & derived)
+            ck.ob(R, "%s::%s" % (v.qual, label), not bad,
+                  "resolver re-resolves from the global table" if not bad else
+                  "resolver closes over %s, an object obtained while evaluating the chain: when an intermediate object is replaced "
+                  "(class re-executed, module attribute rebound) the rule keeps looking at the old object and did_change never fires" % bad,
+                  A.loc(v.fi, node))
+            late = _rebound_after_made(v, node, dn, uses)
+            ck.ob(R, "%s::%s::bound-when-made" % (v.qual, label), late is None,
+                  "what the resolver reads from the enclosing scope is never re-bound once it is made" if late is None else
+                  LATE % (late[0], late[0], line_of(v, late[1]), late[2]), A.loc(v.fi, node))
+            if is_def:
+                bodies[id(node)] = node
+                for x in free:
+                    sib = v.fi.nested.get(x)
+                    if sib is not None:
+                        bodies.setdefault(id(sib.node), sib.node)
         # a resolver tells "the name is gone" apart from "the name is bound to None": None is a legal tracked value, so a
         # resolver that answers None for a missing name makes the deletion of a None-valued variable invisible
-        for node in ast.walk(v.node):
-            if isinstance(node, ast.FunctionDef) and node is not v.node and "resolver" in node.name and node.name not in ("resolve_symbol", "memento_fn_resolver"):
-                nones = []
-                for x in ast.walk(node):
-                    if isinstance(x, ast.IfExp) and A.is_none(x.orelse) and isinstance(x.test, ast.Compare) and isinstance(x.test.ops[0], ast.In):
-                        nones.append(x)
-                    if isinstance(x, ast.Call) and A.call_attr(x) == "getattr" and len(x.args) == 3 and A.is_none(x.args[2]):
-                        nones.append(x)
-                    if isinstance(x, ast.Call) and A.call_attr(x) == "get" and "global_table" in A.norm(A.call_recv(x)) and (len(x.args) == 1 or A.is_none(x.args[1])):
-                        nones.append(x)
-                ck.ob(R, "%s::def %s@%s::missing-is-not-none" % (v.qual, node.name, "loop" if v.enclosing(node, ast.For) is not None else "top"), not nones,
-                      "a missing name resolves to a sentinel of its own" if not nones else
-                      "`%s`: the resolver answers None for a name that no longer exists, the same as for a name bound to None: deleting a tracked variable "
-                      "whose value is None leaves the cached version in place although a fresh computation sees an undefined symbol" % (A.short(nones[0], 60) if nones else ""),
-                      A.loc(v.fi, nones[0] if nones else node))
+        for node in sorted(bodies.values(), key=lambda n_: n_.lineno):
+            nones = _none_for_missing(node)
+            ck.ob(R, "%s::def %s@%s::missing-is-not-none" % (v.qual, node.name, "loop" if v.enclosing(node, ast.For) is not None else "top"), not nones,
+                  "a missing name resolves to a sentinel of its own" if not nones else NONE_MSG % A.short(nones[0], 60), A.loc(v.fi, nones[0] if nones else node))
+        # resolvers made by a factory: the arguments are evaluated when the factory is called, so the closure is judged
+        # inside the factory (what it reads there is not re-bound) and by what is passed in (no object obtained by
+        # evaluating the chain)
+        for (fc, fat) in sorted(factories.values(), key=lambda f_: getattr(f_[0], "lineno", 0)):
+            (fx, made) = _closure_factory(ck, v, fc)
+            where_ = "loop" if v.enclosing(fc, ast.For) is not None else "top"
+            for (node, dn, uses) in made:
+                n_res += 1
+                label = "%s(...)@%s" % (fx.fi.name, where_)
+                free = _closure_reads(fx, node)
+                ps = [p_ for p_ in fx.fi.params if not (p_ in ("self", "cls") and not fx.fi.is_static)]
+                bad = set()
+                for x in free:
+                    if x in ps:
+                        a_ = A.arg_or_kw(fc, ps.index(x), x)
+                        if a_ is not None:
+                            bad |= {n_.id for n_ in ast.walk(a_) if isinstance(n_, ast.Name)} & derived
+                bad = sorted(bad)
+                ck.ob(R, "%s::%s" % (v.qual, label), not bad,
+                      "resolver re-resolves from the global table" if not bad else
+                      "the resolver made by %s closes over %s, an object obtained while evaluating the chain: when an intermediate object is replaced "
+                      "(class re-executed, module attribute rebound) the rule keeps looking at the old object and did_change never fires" % (fx.fi.name, bad),
+                      A.loc(v.fi, fc))
+                late = _rebound_after_made(fx, node, dn, uses)
+                ck.ob(R, "%s::%s::bound-when-made" % (v.qual, label), late is None,
+                      "what the resolver reads from the enclosing scope is never re-bound once it is made" if late is None else
+                      LATE % (late[0], late[0], line_of(fx, late[1]), late[2]), A.loc(fx.fi, node))
+                if not isinstance(node, ast.Lambda):
+                    nones = _none_for_missing(node)
+                    ck.ob(R, "%s::%s::missing-is-not-none" % (v.qual, label), not nones,
+                          "a missing name resolves to a sentinel of its own" if not nones else NONE_MSG % A.short(nones[0], 60), A.loc(fx.fi, nones[0] if nones else node))
+        # a module-level function with its arguments bound by functools.partial: nothing is late-bound; what is bound
+        # must not be an object obtained by evaluating the chain
+        for (pc, pat) in sorted(partials.values(), key=lambda f_: getattr(f_[0], "lineno", 0)):
+            n_res += 1
+            bad = sorted({n_.id for a_ in list(pc.args[1:]) + [k.value for k in pc.keywords] for n_ in ast.walk(a_) if isinstance(n_, ast.Name)} & derived)
+            ck.ob(R, "%s::partial %s@%s" % (v.qual, pc.args[0].id, "loop" if v.enclosing(pc, ast.For) is not None else "top"), not bad,
+                  "resolver re-resolves from the global table" if not bad else
+                  "the resolver `%s` is bound to %s, an object obtained while evaluating the chain: when an intermediate object is replaced "
+                  "(class re-executed, module attribute rebound) the rule keeps looking at the old object and did_change never fires" % (A.short(pc, 50), bad), A.loc(v.fi, pc))
+            pf = ck.repo.module(CH).functions[pc.args[0].id]
+            nones = _none_for_missing(pf.node)
+            ck.ob(R, "%s::partial %s@%s::missing-is-not-none" % (v.qual, pc.args[0].id, "loop" if v.enclosing(pc, ast.For) is not None else "top"), not nones,
+                  "a missing name resolves to a sentinel of its own" if not nones else NONE_MSG % A.short(nones[0], 60), A.loc(pf, nones[0] if nones else pf.node))
         # rules that watch for a symbol to appear must also look it up from the root each time
         for c in v.calls("UndefinedSymbolHashRule"):
             base = c.args[0] if c.args else A.kwarg(c, "ref")
@@ -1911,17 +2488,45 @@ def check_dotted_names(ck, R):
                 cls = c_.node
     ck.need(cls is not None, "list_dotted_names: visitor class not found")
     methods = {s.name: s for s in cls.body if isinstance(s, ast.FunctionDef)}
-    okn = "visit_Name" in methods and any(isinstance(c, ast.Call) and A.call_attr(c) == "add" and A.norm(c.args[0]) == "node.id" for c in ast.walk(methods["visit_Name"]))
+
+    def records(m):
+        """[(field, argument)] for every `self.<field>.add(<argument>)` in a visitor method (self = its first parameter)."""
+        me = m.args.args[0].arg if m.args.args else "self"
+        return [(c.func.value.attr, c.args[0]) for c in ast.walk(m) if isinstance(c, ast.Call) and A.call_attr(c) == "add" and len(c.args) == 1
+                and isinstance(c.func.value, ast.Attribute) and isinstance(c.func.value.value, ast.Name) and c.func.value.value.id == me]
+
+    # the field of the visitor in which the names are gathered (whatever it is called)
+    ACC = {f_ for nm_ in ("visit_Name", "visit_Attribute") if nm_ in methods for (f_, _a) in records(methods[nm_])}
+    okn = False
+    if "visit_Name" in methods:
+        vn = methods["visit_Name"]
+        p1 = vn.args.args[1].arg if len(vn.args.args) > 1 else None
+        okn = any(isinstance(a_, ast.Attribute) and a_.attr == "id" and isinstance(a_.value, ast.Name) and a_.value.id == p1 for (_f, a_) in records(vn))
     ck.ob(R, fa.key(None, "visit-Name"), okn, "bare names are recorded" if okn else "bare names are no longer recorded as references", fa.where())
-    oka = "visit_Attribute" in methods and any(isinstance(c, ast.Call) and A.call_attr(c) == "add" for c in ast.walk(methods["visit_Attribute"])) \
+    oka = "visit_Attribute" in methods and bool(records(methods["visit_Attribute"])) \
         and any(isinstance(c, ast.Call) and A.call_attr(c) == "generic_visit" for c in ast.walk(methods["visit_Attribute"]))
     ck.ob(R, fa.key(None, "visit-Attribute"), oka, "attribute chains are recorded and their sub-expressions still visited" if oka else
           "attribute chains are no longer recorded (module.attr references are missed) or their sub-expressions are skipped", fa.where())
     if "visit_Attribute" in methods:
-        # the chain evaluator: the method itself, the functions nested in it and the methods of the visitor it calls
+        # the chain evaluator: the method itself, the functions nested in it, and the methods of the visitor / functions of the
+        # module it calls (transitively)
         va = methods["visit_Attribute"]
-        ev = [va] + [m_ for nm_, m_ in methods.items() if nm_ not in ("visit_Attribute", "visit_Name", "generic_visit", "__init__")
-                     and any(isinstance(c, ast.Call) and A.call_attr(c) == nm_ for c in ast.walk(va))]
+        mod_funcs = ck.repo.module(CH).functions
+        ev, seen_ev, work = [], set(), [va]
+        while work:
+            cur = work.pop()
+            if id(cur) in seen_ev:
+                continue
+            seen_ev.add(id(cur))
+            ev.append(cur)
+            for c in ast.walk(cur):
+                if not isinstance(c, ast.Call):
+                    continue
+                nm_ = A.call_attr(c)
+                if isinstance(c.func, ast.Attribute) and nm_ in methods and nm_ not in ("visit_Attribute", "visit_Name", "generic_visit", "visit", "__init__"):
+                    work.append(methods[nm_])
+                elif isinstance(c.func, ast.Name) and nm_ in mod_funcs and nm_ != fa.fi.name:
+                    work.append(mod_funcs[nm_].node)
         kinds = set()
         for e in ev:
             for i in ast.walk(e):
@@ -2003,8 +2608,8 @@ def check_dotted_names(ck, R):
         if not fa.nodes(st):
             continue
         if isinstance(st, ast.Assign) and any(isinstance(t, ast.Name) and t.id == RES for t in st.targets):
-            if not (isinstance(st.value, ast.Attribute) and st.value.attr == "references" and isinstance(st.value.value, ast.Name)
-                    and fa.xnorm(st.value.value, fa.nodes(st)[0]).endswith("()")):
+            if not (isinstance(st.value, ast.Attribute) and st.value.attr in ACC and isinstance(st.value.value, ast.Name)
+                    and isinstance(fa.expand(st.value.value, fa.nodes(st)[0]), ast.Call) and A.call_attr(fa.expand(st.value.value, fa.nodes(st)[0])) == cls.name):
                 if isinstance(st.value, ast.BinOp) and isinstance(st.value.op, ast.Sub) and A.norm(st.value.left) == RES:
                     reductions.append((st, st.value.right))
                 else:
